@@ -178,15 +178,16 @@ int main(int argc, char **argv) {
     int n = (int) A.geti("n", 0);
     std::vector<std::string> fams;
     if (A.has("families")) fams = vr::split(A.get("families"), ',');
+    const uint64_t relabel_n = (uint64_t) std::max<long>(1, A.geti("relabel", 1));     // every family additionally under relabel_n - 1 renumberings of its vertices (fixed menu)
     std::unique_ptr<vg::BlobUniverse> blob;
     if (A.has("grammar")) { auto t = vr::split(A.get("grammar"), ':'); blob.reset(new vg::BlobUniverse(atoi(t[1].c_str()), atoi(t[2].c_str()))); }
-    uint64_t ngraphs = blob ? blob->size() : fams.empty() ? vg::num_graphs(n) : fams.size();
+    uint64_t ngraphs = blob ? blob->size() : fams.empty() ? vg::num_graphs(n) : fams.size() * relabel_n;
     uint64_t wchunks = (uint64_t) A.geti("wchunks", 1);      // a unit is (graph, residue class of weightings)
     uint64_t total_units = ngraphs * wchunks;
     uint64_t seed = (uint64_t) A.geti("seed", 0);
     int min_dim = (int) A.geti("min-dim", 0), min_m = (int) A.geti("min-m", 0), max_m = (int) A.geti("max-m", 62);
     int orient_mode = (int) A.geti("orient", 0);
-    auto unit_graph0 = [&](uint64_t u) { uint64_t uu = ((u / wchunks) + seed) % ngraphs; return blob ? blob->build(uu) : fams.empty() ? vg::graph_from_mask(n, uu) : vg::family(fams[uu]); };
+    auto unit_graph0 = [&](uint64_t u) { uint64_t uu = ((u / wchunks) + seed) % ngraphs; return blob ? blob->build(uu) : fams.empty() ? vg::graph_from_mask(n, uu) : vg::relabel(vg::family(fams[uu / relabel_n]), (int) (uu % relabel_n)); };
     auto unit_graph = [&](uint64_t u) { vg::EdgeList g = unit_graph0(u); vg::orient(g, orient_mode); return g; };
     auto describe = [&](uint64_t u, uint64_t sub, uint64_t) {
         vg::EdgeList el = unit_graph(u); std::vector<double> w; vg::weighting(alpha, el.m(), sub, w);
